@@ -1,9 +1,256 @@
 package props
 
-import "verif/internal/core"
+import (
+	"bufio"
+	"crypto/sha1"
+	"encoding/base64"
+	"encoding/json"
+	"fmt"
+	"io"
+	"net"
+	"path/filepath"
+	"strings"
+	"sync"
+	"time"
 
-// C09 — stub, replaced by the real check.
+	"verif/internal/core"
+	"verif/internal/fakes"
+	"verif/internal/rawhttp"
+)
+
+// c09Backend records plain requests and websocket handshakes by X-Tok.
+type c09Backend struct {
+	Srv  *rawhttp.Server
+	mu   sync.Mutex
+	seen map[string][]*rawhttp.Message
+	ws   map[string]bool
+}
+
+func newC09Backend() (*c09Backend, error) {
+	b := &c09Backend{seen: map[string][]*rawhttp.Message{}, ws: map[string]bool{}}
+	s, err := rawhttp.NewServer(func(req *rawhttp.Message, reqErr error, conn net.Conn, br *bufio.Reader) bool {
+		if reqErr != nil {
+			return false
+		}
+		tok := ""
+		if v := req.Get("X-Tok"); len(v) > 0 {
+			tok = v[0]
+		}
+		isWS := rawhttp.HasToken(req.Get("Upgrade"), "websocket")
+		b.mu.Lock()
+		b.seen[tok] = append(b.seen[tok], req)
+		if isWS {
+			b.ws[tok] = true
+		}
+		b.mu.Unlock()
+		if isWS {
+			key := ""
+			if v := req.Get("Sec-WebSocket-Key"); len(v) > 0 {
+				key = v[0]
+			}
+			h := sha1.Sum([]byte(key + "258EAFA5-E914-47DA-95CA-C5AB0DC85B11"))
+			var w rawhttp.Builder
+			w.Line("HTTP/1.1 101 Switching Protocols").Field("Upgrade", "websocket").Field("Connection", "Upgrade").
+				Field("Sec-WebSocket-Accept", base64.StdEncoding.EncodeToString(h[:])).End()
+			conn.Write(w.Bytes())
+			conn.SetDeadline(time.Now().Add(20 * time.Second))
+			io.Copy(io.Discard, br) // until the agent closes
+			return false
+		}
+		var w rawhttp.Builder
+		w.Line("HTTP/1.1 200 OK").Field("Content-Length", "2").End()
+		w.WriteString("ok")
+		_, err := conn.Write(w.Bytes())
+		return err == nil
+	})
+	if err != nil {
+		return nil, err
+	}
+	b.Srv = s
+	return b, nil
+}
+
+type c09Case struct {
+	Tok      string          `json:"tok"`
+	Shim     bool            `json:"via_shim_open"`
+	Identity string          `json:"asserted_identity"`
+	Fields   []rawhttp.Field `json:"client_fields"`
+	Class    string          `json:"class"`
+}
+
+// C09 — identity and credential headers are trustworthy.
 func C09(r *core.Run) {
-	r.Broken("check not implemented yet")
-	r.Finish(1)
+	r.SetRule("real agent in configurations of {forward-user-id, strip-credentials, shim, sessions}; fake proxy asserts a unique identity per request; clients plant forged X-Inverting-Proxy-User-ID fields (lower/upper/mixed case, repeated 1-3x) and Authorization fields (Basic/Bearer, repeated, mixed-case names); requests delivered as plain requests and as websocket-shim open requests; raw backend records request and websocket-handshake header lines; class = (config, plain|shim, forged-identity shape, authorization shape, identity kind)")
+	r.Assume("nothing is asserted about the identity header when --forward-user-id is off, nor about Authorization when --strip-credentials is off")
+	agentBin := r.MustBuild(r.BuildRepoBinary("./agent", "agent"))
+	md, err := fakes.NewMetadata()
+	if err != nil {
+		r.Broken(err.Error())
+		r.Finish(1)
+	}
+	defer md.Close()
+	type config struct{ fwd, strip, shim, sess bool }
+	var cfgs []config
+	for i := 0; i < 16; i++ {
+		c := config{i&1 != 0, i&2 != 0, i&4 != 0, i&8 != 0}
+		if r.Quick() && !(c.fwd && c.strip) {
+			continue
+		}
+		cfgs = append(cfgs, c)
+	}
+	per := r.Pick(70, 500)
+	var wg sync.WaitGroup
+	for ci, cfg := range cfgs {
+		wg.Add(1)
+		go func(ci int, cfg config) {
+			defer wg.Done()
+			rng := r.Rand(fmt.Sprintf("c09-%d", ci))
+			backend, err := newC09Backend()
+			if err != nil {
+				r.Broken(err.Error())
+				return
+			}
+			defer backend.Srv.Close()
+			px, err := fakes.NewProxy()
+			if err != nil {
+				r.Broken(err.Error())
+				return
+			}
+			defer px.Close()
+			px.ListWait = 50 * time.Millisecond
+			args := []string{fmt.Sprintf("--forward-user-id=%v", cfg.fwd), fmt.Sprintf("--strip-credentials=%v", cfg.strip)}
+			if cfg.shim {
+				args = append(args, "--shim-path=shim", "--shim-websockets=true")
+			}
+			if cfg.sess {
+				args = append(args, "--session-cookie-name=SID", "--disable-ssl-for-test=true")
+			}
+			agent, err := startAgent(r, agentBin, fmt.Sprintf("agent%d", ci), md, px.URL(), backend.Srv.Addr(), fmt.Sprintf("b9-%d", ci), args...)
+			if err != nil {
+				r.Broken(err.Error())
+				return
+			}
+			defer agent.Kill()
+			cfgName := fmt.Sprintf("fwd=%v,strip=%v,shim=%v,sess=%v", cfg.fwd, cfg.strip, cfg.shim, cfg.sess)
+			var cases []c09Case
+			for i := 0; i < per; i++ {
+				tok := fmt.Sprintf("s%dg%di%d", r.Seed, ci, i)
+				c := c09Case{Tok: tok, Shim: cfg.shim && i%3 == 0, Identity: "user-" + tok + "@example.com"}
+				idKind := "email"
+				switch rng.Intn(6) {
+				case 0:
+					c.Identity, idKind = "", "empty"
+				case 1:
+					c.Identity, idKind = "allUsers", "word"
+				}
+				forged := rng.Intn(4)
+				fshape := fmt.Sprint(forged)
+				for k := 0; k < forged; k++ {
+					name := []string{"X-Inverting-Proxy-User-ID", "x-inverting-proxy-user-id", "X-INVERTING-PROXY-USER-ID", "X-Inverting-Proxy-User-Id", "x-InVerTing-proXy-uSer-id"}[rng.Intn(5)]
+					val := []string{"forged-" + tok + "@evil.example", "admin@example.com", "", c.Identity}[rng.Intn(4)]
+					c.Fields = append(c.Fields, rawhttp.Field{Name: name, Value: val})
+				}
+				auth := rng.Intn(4)
+				for k := 0; k < auth; k++ {
+					name := []string{"Authorization", "authorization", "AUTHORIZATION", "AuThOrIzAtIoN"}[rng.Intn(4)]
+					val := []string{"Basic " + base64.StdEncoding.EncodeToString([]byte("u:"+tok)), "Bearer secret-" + tok, "Negotiate x" + tok}[rng.Intn(3)]
+					c.Fields = append(c.Fields, rawhttp.Field{Name: name, Value: val})
+				}
+				rng.Shuffle(len(c.Fields), func(a, b int) { c.Fields[a], c.Fields[b] = c.Fields[b], c.Fields[a] })
+				c.Class = fmt.Sprintf("%s|shim=%v|forged=%s|auth=%d|id=%s", cfgName, c.Shim, fshape, auth, idKind)
+				cases = append(cases, c)
+			}
+			// issue the requests, 8 in flight
+			sem := make(chan struct{}, 8)
+			var cwg sync.WaitGroup
+			for _, c := range cases {
+				sem <- struct{}{}
+				cwg.Add(1)
+				go func(c c09Case) {
+					defer cwg.Done()
+					defer func() { <-sem }()
+					var w rawhttp.Builder
+					if c.Shim {
+						body := "ws://ignored.example/ws/" + c.Tok + "?x=1"
+						w.Line("POST /shim/open HTTP/1.1").Field("Host", "c09.example").Field("X-Tok", c.Tok).Fields(c.Fields).
+							Field("Content-Length", fmt.Sprint(len(body))).End()
+						w.WriteString(body)
+					} else {
+						w.Line("GET /plain/" + c.Tok + " HTTP/1.1").Field("Host", "c09.example").Field("X-Tok", c.Tok).Fields(c.Fields).End()
+					}
+					px.Enqueue(c.Tok, w.Bytes(), c.Identity)
+					up, ok := px.Wait(c.Tok, 20*time.Second)
+					if ok && c.Shim && up.Resp != nil && up.Resp.Status == 200 {
+						// close the shim session again
+						var m struct {
+							ID string `json:"id"`
+						}
+						if json.Unmarshal(up.Resp.Body, &m) == nil && m.ID != "" {
+							cb := fmt.Sprintf(`{"id":%q}`, m.ID)
+							var cw rawhttp.Builder
+							cw.Line("POST /shim/close HTTP/1.1").Field("Host", "c09.example").Field("Content-Length", fmt.Sprint(len(cb))).End()
+							cw.WriteString(cb)
+							px.Enqueue(c.Tok+"-close", cw.Bytes(), c.Identity)
+							px.Wait(c.Tok+"-close", 10*time.Second)
+						}
+					}
+				}(c)
+			}
+			cwg.Wait()
+			// oracle
+			for _, c := range cases {
+				r.Case(c.Class)
+				backend.mu.Lock()
+				reqs := backend.seen[c.Tok]
+				sawWS := backend.ws[c.Tok]
+				backend.mu.Unlock()
+				if len(reqs) == 0 {
+					r.Inconclusive(fmt.Sprintf("request %s (%s) never reached the backend", c.Tok, c.Class))
+					continue
+				}
+				if c.Shim && !sawWS {
+					r.Inconclusive(fmt.Sprintf("shim open %s did not produce a websocket handshake", c.Tok))
+				}
+				kind := "plain"
+				if c.Shim {
+					kind = "shim-open"
+				}
+				for _, req := range reqs {
+					if cfg.fwd {
+						var ids []string
+						for _, f := range req.Fields {
+							if strings.EqualFold(f.Name, "X-Inverting-Proxy-User-ID") {
+								ids = append(ids, f.Value)
+							}
+						}
+						if len(ids) != 1 || ids[0] != c.Identity {
+							what := "wrong-value"
+							if len(ids) > 1 {
+								what = "client-value-forwarded"
+							} else if len(ids) == 0 {
+								what = "missing"
+							}
+							r.Violate("C09:user-id:"+what+":"+kind, fmt.Sprintf("%s: backend saw X-Inverting-Proxy-User-ID %q, the proxy asserted %q (client fields %v)", cfgName, ids, c.Identity, c.Fields), c, req.Fields)
+						}
+					}
+					if cfg.strip {
+						for _, f := range req.Fields {
+							if strings.EqualFold(f.Name, "Authorization") {
+								r.Violate("C09:authorization-forwarded:"+kind, fmt.Sprintf("%s: backend saw %s: %s", cfgName, f.Name, f.Value), c, req.Fields)
+							}
+						}
+					}
+				}
+				if len(c.Fields) > 2 {
+					r.Sample(map[string]interface{}{"case": c, "backend_saw": reqs[0].Fields})
+				}
+			}
+			r.Add("websocket_handshakes_observed", len(backend.ws))
+			judgeProcs(r, true, agent)
+		}(ci, cfg)
+	}
+	wg.Wait()
+	r.Set("agent_configurations", len(cfgs))
+	r.JudgeRaces(core.ParseRaceLogs(filepath.Join(r.WorkDir, "race-")))
+	r.Finish(r.Pick(200, 4000))
 }
